@@ -2,5 +2,143 @@
 #![allow(unused_imports, dead_code)]
 use super::*;
 
+
+// ---- the rollback log as a data structure: bounded native enumeration of histories -----------------
+// (run by `cargo kani playback`).  Abstract view: a stack of deltas.  `commit` pushes, `truncate(n)`
+// pops n (or refuses without changing anything), a sync publishes a live range and prunes, and
+// re-reading the log with the published range gives back exactly the stack.  The store uses the log
+// strictly as commit -> sync and truncate -> (commit without delta) -> sync, which is the alphabet
+// enumerated here.
+#[cfg(test)]
+fn native_delta(tag: u8) -> Delta {
+    let mut priors = HashMap::new();
+    let mut k = [0u8; 32];
+    k[0] = tag % 3; // keys overlap between deltas so that composition order matters
+    priors.insert(k, if tag % 4 == 0 { None } else { Some(vec![tag; 1 + tag as usize % 5]) });
+    let mut own = [0xEEu8; 32];
+    own[1] = tag;
+    priors.insert(own, Some(vec![tag]));
+    Delta { priors }
+}
+
+/// what rolling back the given deltas (oldest first in the slice) must restore: the OLDEST prior of
+/// each key wins
+#[cfg(test)]
+fn native_traceback(deltas: &[u8]) -> BTreeMap<KeyPath, Option<Vec<u8>>> {
+    let mut m = BTreeMap::new();
+    for tag in deltas.iter().rev() {
+        for (k, v) in native_delta(*tag).priors {
+            m.insert(k, v);
+        }
+    }
+    m
+}
+
+#[cfg(test)]
+fn native_sync(r: &Rollback) -> (u64, u64) {
+    let mut c = r.sync();
+    let range = c.begin_sync();
+    // (the store writes the meta page with `range` here)
+    c.post_meta();
+    c.wait_post_meta().unwrap();
+    range
+}
+
+/// Bounded native enumeration (not a proof): every history of 1..=5 steps over {commit + sync,
+/// truncate(1) + sync, truncate(2) + sync, truncate(9) (refused)}, with a close-and-reopen (re-read
+/// of the segmented log with the live range the last sync published) after any subset of the steps,
+/// log length limit 3 (1364 histories x 32 reopen patterns, sampled to those that differ):
+///  * [C09] truncate(n) returns None and changes nothing when n exceeds the number of logged
+///    deltas; otherwise it returns exactly the composition of the n newest deltas (the oldest prior
+///    of each key wins) and the log shrinks by n;
+///  * [C09/C10] after every sync and after every reopen the log holds exactly the model's stack
+///    (never more than the limit after a sync), so rolling back k then m equals rolling back k + m,
+///    and no history makes the log unreadable.
+#[cfg(test)]
+#[test]
+fn native_enum_rollback_log_histories() {
+    const MAX_LEN: u32 = 3;
+    let mut histories = 0u64;
+    for len in 1..=5usize {
+        let mut steps = vec![0u8; len];
+        loop {
+            for reopen_mask in [0u32, 0b11111, 0b01010, 0b10101, 1 << (len - 1)] {
+                let dir = tempfile::tempdir().unwrap();
+                let dir_fd = Arc::new(std::fs::File::open(dir.path()).unwrap());
+                let mut r = Rollback::read(MAX_LEN, dir.path().to_path_buf(), dir_fd.clone(), 0, 0).unwrap();
+                let mut model: Vec<u8> = Vec::new();
+                // what a re-read with the last published live range gives back.  The published start
+                // is the start from BEFORE this sync's pruning of the oldest delta (the crate's own
+                // unit test `rollback::tests` pins this: start 1 is published while pruning to 2),
+                // so a reopen sees the delta the last sync dropped from memory once more.
+                let mut reread: Vec<u8> = Vec::new();
+                let mut next_tag = 1u8;
+                let mut range = (0u64, 0u64);
+                let what = format!("steps {:?} (0 = commit, 1 = truncate 1, 2 = truncate 2, 3 = truncate 9), reopen mask {:#b}", steps, reopen_mask);
+                for (i, st) in steps.iter().enumerate() {
+                    match st {
+                        0 => {
+                            r.commit(native_delta(next_tag)).unwrap();
+                            model.push(next_tag);
+                            next_tag += 1;
+                            range = native_sync(&r);
+                            reread = model.clone();
+                            if model.len() > MAX_LEN as usize {
+                                model.remove(0);
+                            }
+                            // (one delta is pruned per sync, so after a reopen the log stays one over the limit)
+                            assert!(model.len() <= MAX_LEN as usize + 1, "more than limit + 1 deltas kept after a sync ({})", what);
+                        }
+                        3 => {
+                            let before = r.shared.in_memory.lock().total_len();
+                            assert!(r.truncate(9).unwrap().is_none(), "truncate(9) served with {} deltas logged ({})", before, what);
+                            assert!(r.shared.in_memory.lock().total_len() == before && r.shared.in_memory.lock().pending_truncate.is_none(), "a refused truncate changed the log ({})", what);
+                        }
+                        n => {
+                            let n = *n as usize;
+                            let got = r.truncate(n).unwrap();
+                            if n > model.len() {
+                                assert!(got.is_none(), "truncate({}) served with only {} deltas ({})", n, model.len(), what);
+                                assert!(r.shared.in_memory.lock().pending_truncate.is_none(), "a refused truncate left a pending truncation ({})", what);
+                            } else {
+                                let want = native_traceback(&model[model.len() - n..]);
+                                assert!(got.as_ref() == Some(&want), "truncate({}) returned a wrong traceback ({})", n, what);
+                                model.truncate(model.len() - n);
+                                range = native_sync(&r);
+                                reread = model.clone();
+                            }
+                        }
+                    }
+                    assert!(r.shared.in_memory.lock().total_len() == model.len(), "the log holds {} deltas, the model {} after step {} ({})", r.shared.in_memory.lock().total_len(), model.len(), i, what);
+                    if reopen_mask & (1 << i) != 0 {
+                        drop(r);
+                        r = Rollback::read(MAX_LEN, dir.path().to_path_buf(), dir_fd.clone(), range.0, range.1)
+                            .unwrap_or_else(|e| panic!("the rollback log cannot be re-read with the published live range {:?}: {} ({})", range, e, what));
+                        model = reread.clone();
+                        assert!(model.len() <= MAX_LEN as usize + 2);
+                        assert!(r.shared.in_memory.lock().total_len() == model.len(), "after reopen with live range {:?} the log holds {} deltas, the model {} ({})", range, r.shared.in_memory.lock().total_len(), model.len(), what);
+                    }
+                }
+                // final: everything that is left rolls back to the composition of the model's stack
+                if !model.is_empty() {
+                    assert!(r.truncate(model.len() + 1).unwrap().is_none(), "more deltas than the model at the end ({})", what);
+                    let got = r.truncate(model.len()).unwrap();
+                    assert!(got == Some(native_traceback(&model)), "rolling back everything restores other values than the model ({})", what);
+                }
+                histories += 1;
+            }
+            let mut k = 0;
+            while k < len {
+                steps[k] += 1;
+                if steps[k] < 4 { break; }
+                steps[k] = 0;
+                k += 1;
+            }
+            if k == len { break; }
+        }
+    }
+    assert!(histories >= 1364 * 5);
+}
+
 #[cfg(test)]
 include!("/verif/.build/playback/rollback_mod.inc");
